@@ -21,6 +21,10 @@ var pureExternalPrefixes = []string{"strings.", "strconv.", "fmt.Sprintf", "fmt.
 	"(go/token.Pos).", "(go/token.Token).", "errors.", "sort.SearchInts", "reflect.TypeOf", "(reflect.Type).", "(*go/token.File).Name", "(*go/token.File).Base", "(*go/token.File).Size"}
 
 func isPureExternal(name string) bool {
+	// position accessors of go/ast nodes only read the node
+	if strings.HasPrefix(name, "(*go/ast.") && (strings.HasSuffix(name, ").Pos") || strings.HasSuffix(name, ").End")) {
+		return true
+	}
 	for _, p := range pureExternalPrefixes {
 		if strings.HasPrefix(name, p) {
 			return true
@@ -49,6 +53,14 @@ func (ex *Exec) callCommon(fr *frame, c *ssa.CallCommon, site ssa.Instruction, g
 	var bindings []Val
 	if c.IsInvoke() {
 		recv := ex.value(fr, c.Value, s)
+		if recv.Refl != nil && recv.Refl.Kind == "type" {
+			// methods of reflect.Type (Elem, Kind, ...): pure, no metadata modelled
+			res := c.Signature().Results()
+			if res.Len() == 1 && typeKey(res.At(0).Type()) == "reflect.Type" {
+				return g, Val{T: u.freshConst("rtype", SIface), Typ: res.At(0).Type(), Refl: &reflVal{Kind: "type"}}
+			}
+			return g, ex.freshResult(res, s, g)
+		}
 		if ex.onCall != nil {
 			if h, r := ex.onCall(fr, c, nil, append([]Val{recv}, args...), s, g); h {
 				return g, r
@@ -127,6 +139,11 @@ func (ex *Exec) callCommon(fr *frame, c *ssa.CallCommon, site ssa.Instruction, g
 	}
 	if r, ok := ex.modelExternal(name, callee, args, g, s); ok {
 		return g, r
+	}
+	if strings.HasPrefix(name, "reflect.") || strings.HasPrefix(name, "(reflect.") {
+		if r, g2, ok := ex.modelReflect(name, callee, args, g, s); ok {
+			return g2, r
+		}
 	}
 	if len(callee.Blocks) > 0 && ex.inRepo(callee) {
 		for _, f := range ex.stack {
@@ -896,7 +913,7 @@ func (ex *Exec) allButKeys(it string, env *SpecEnv) ([]string, bool) {
 		if keep[k] || isLocalKey(k) {
 			continue
 		}
-		if strings.HasPrefix(k, "H$") || strings.HasPrefix(k, "A$") || strings.HasPrefix(k, "M$") || strings.HasPrefix(k, "MD$") || strings.HasPrefix(k, "C$") || strings.HasPrefix(k, "GV$") {
+		if strings.HasPrefix(k, "H$") || strings.HasPrefix(k, "A$") || strings.HasPrefix(k, "M$") || strings.HasPrefix(k, "MD$") || strings.HasPrefix(k, "C$") || strings.HasPrefix(k, "GV$") || strings.HasPrefix(k, "RF$") {
 			out = append(out, k)
 		}
 	}
